@@ -412,21 +412,13 @@ pub fn check_node(n: &WalkNode, f: &mut Facts) -> Vec<(Scope, String)> {
 fn classify(n: &WalkNode, scope: Scope, msg: &str, stealing: bool) -> Option<String> {
     let column_stat = msg.contains(": column ");
     let is_join = |p: &Arc<dyn datafusion::physical_plan::ExecutionPlan>| p.name().contains("Join");
-    let parquet_with_predicate = |p: &Arc<dyn datafusion::physical_plan::ExecutionPlan>| {
-        let d = walk::one_line_full(p.as_ref());
-        p.name() == "DataSourceExec" && d.contains("file_type=parquet") && d.contains("predicate=")
-    };
     let parquet_multi_group = |p: &Arc<dyn datafusion::physical_plan::ExecutionPlan>| {
         let d = walk::one_line_full(p.as_ref());
         p.name() == "DataSourceExec" && d.contains("file_type=parquet") && !d.contains("file_groups={1 group")
     };
-    // both file-scan signatures are keyed on the scan node itself (only the lowest violating node of a case is reported,
-    // so a violating scan is always its own root cause; violations of operators above a clean scan are NOT filed here)
-    if scope == Scope::Partition && parquet_with_predicate(&n.plan) {
-        // known finding: per-partition statistics of a file scan ignore its predicate
-        return Some("file-scan-partition-statistics-ignore-predicate".into());
-    }
-    // … or an operator that hands the scan's per-partition statistics on unchanged (each node is executed on its own, so
+    // (fixed in /repo and no longer recognised: file-scan-partition-statistics-ignore-predicate, partitioned-topk-sort-statistics,
+    // cast-keeps-exact-min-max — their cases are plain regressions now)
+    // the work-stealing signature is keyed on the scan node itself, or an operator that hands the scan's per-partition statistics on unchanged (each node is executed on its own, so
     // the steal may show in the run of such a parent while the scan's own run was clean); joins, aggregates, limits above
     // the scan are NOT filed here
     fn hands_on(p: &Arc<dyn datafusion::physical_plan::ExecutionPlan>, scan: &dyn Fn(&Arc<dyn datafusion::physical_plan::ExecutionPlan>) -> bool) -> bool {
@@ -440,14 +432,6 @@ fn classify(n: &WalkNode, scope: Scope, msg: &str, stealing: bool) -> Option<Str
     if scope == Scope::Partition && stealing && hands_on(&n.plan, &parquet_multi_group) {
         // known finding: per-partition statistics of a file scan stay Exact although sibling partitions share the files
         return Some("file-scan-partition-statistics-under-work-stealing".into());
-    }
-    let partitioned_topk = |p: &Arc<dyn datafusion::physical_plan::ExecutionPlan>| {
-        let d = walk::one_line_full(p.as_ref());
-        p.name().starts_with("SortExec") && d.contains("TopK(fetch=") && d.contains("preserve_partitioning=[true]")
-    };
-    if !column_stat && walk::subtree_has(&n.plan, &partitioned_topk) {
-        // known finding: a partition-preserving TopK sort reports row counts as if it had one output partition and no shared threshold
-        return Some("partitioned-topk-sort-statistics".into());
     }
     let mark_join = is_join(&n.plan) && {
         let d = walk::one_line_full(n.plan.as_ref());
@@ -486,10 +470,6 @@ fn classify(n: &WalkNode, scope: Scope, msg: &str, stealing: bool) -> Option<Str
     // is not part of the key, except for defects of the registry's own providers
     let scope_s = if scope == Scope::Registry && n.name == "CoalescePartitionsExec" { "registry-" } else { "" };
     let op = if n.name.starts_with("SortExec") { "SortExec" } else { n.name.as_str() };
-    if qual.contains("cast") && stat == "min_max" {
-        // known finding: CAST keeps Exact min/max (ProjectionExec, or a projection pushed into a scan)
-        return Some("cast-keeps-exact-min-max".into());
-    }
     if n.name == "DataSourceExec" && qual.contains("+limit") {
         return Some(format!("scan-limit-ignored-in-statistics{}", if qual.contains("parquet") { "[parquet]" } else { "[memory]" }));
     }
@@ -667,8 +647,14 @@ impl Property for C29 {
         "c29"
     }
     fn strategy(&self, tier: Tier) -> BoxedStrategy<Case> {
-        (walk::case_strategy(tier, Purpose::Stats, 3, 2), prop::collection::vec(backing_strategy(), 3), prop_oneof![3 => Just(true), 1 => Just(false)], prop_oneof![1 => Just(true), 4 => Just(false)])
-            .prop_map(|(mut base, backing, collect, stealing)| {
+        let dict = prop_oneof![3 => Just(Vec::<u8>::new()), 1 => Just(vec![3u8]), 1 => Just(vec![3u8, 1]), 1 => Just(vec![1u8, 2])];
+        (walk::case_strategy(tier, Purpose::Stats, 3, 2), prop::collection::vec(backing_strategy(), 3), prop_oneof![3 => Just(true), 1 => Just(false)], prop_oneof![1 => Just(true), 4 => Just(false)], prop::collection::vec(dict, 3))
+            .prop_map(|(mut base, backing, collect, stealing, dict)| {
+                // memory tables may render BIGINT / VARCHAR columns as dictionaries whose VALUES hold a NULL (logical NULLs
+                // outside the validity buffer): exact null_count / min / max of the source and of everything forwarding them
+                for (s, d) in base.sources.iter_mut().zip(dict) {
+                    s.dict_cols = d;
+                }
                 // single-threaded runtime: which partition steals a file / emits a mark join's rows / feeds a shared TopK
                 // threshold first must not vary between two evaluations of one case
                 base.variant.flavor = vf_df::Flavor::CurrentThread;
@@ -729,6 +715,9 @@ fn judge(case: &Case) -> Judged {
     }
     let stealing = !case.base.variant.options.iter().any(|(k, v)| k.ends_with("enable_file_stream_work_stealing") && v == "false");
     labels.push(if stealing { "work-stealing:on".to_string() } else { "work-stealing:off".to_string() });
+    if case.base.sources.iter().zip(&case.backing).any(|(s, b)| !s.dict_cols.is_empty() && matches!(b, Backing::Mem)) {
+        labels.push("source:dictionary-with-null-value".to_string());
+    }
     labels.sort();
     labels.dedup();
     let describe = || format!("{}\n  backing: {:?}\n  plan:\n{}", case.base.describe(), case.backing, w.plan_text);
